@@ -23,7 +23,7 @@ func Exec(s core.Schedule) *core.Outcome {
 		zap.ReplaceGlobals(l)
 	}
 	r := &run{sc: sc, cfg: cfg, out: out, models: map[dragonboat.ShardKey]*shardModel{}, lastL: map[string]uint64{}, seenL: map[string]map[uint64]bool{},
-		blocked: map[string]bool{}, leaderTables: map[string]uint64{}, deleted: map[string]bool{}, start: time.Now()}
+		blocked: map[string]bool{}, clientDelay: map[string]time.Duration{}, leaderTables: map[string]uint64{}, deleted: map[string]bool{}, start: time.Now()}
 	r.kc = &fsmsim.Cfg{Keys: cfg.Keys}
 	w := NewWorld(WorldCfg{Seed: cfg.Seed, Leaders: cfg.Leaders, Followers: cfg.Followers, SnapshotEntries: cfg.SnapshotEntries, CompactionOverhead: cfg.CompactionOverhead,
 		MaxInMemLogSize: cfg.MaxInMemLogSize, LogCacheSize: cfg.LogCacheSize, MaxMsg: cfg.MaxMsg, PollMs: cfg.PollMs, LeaseMs: cfg.LeaseMs, ReconcileMs: cfg.ReconcileMs,
@@ -32,8 +32,11 @@ func Exec(s core.Schedule) *core.Outcome {
 	w.u.BusyPermille, w.u.DropPermille, w.u.TimeoutLostPermille, w.u.TimeoutAppliedPermille = cfg.BusyPermille, cfg.DropPermille, cfg.TOLostPermille, cfg.TOAppliedPermille
 	w.u.FaultMinShard = 10000 // metadata shards are not subjected to proposal faults
 	w.net.Delay = func(from, to string) time.Duration {
-		if r.delay > 0 {
-			return r.delay
+		if d, ok := r.clientDelay[from]; ok && d > 0 {
+			return d
+		}
+		if d, ok := r.clientDelay[to]; ok && d > 0 {
+			return d
 		}
 		return r.netDelay
 	}
@@ -44,7 +47,9 @@ func Exec(s core.Schedule) *core.Outcome {
 		dragonboat.SetUniverse(nil)
 	}()
 	// leaders first; followers after or before the initial tables exist
-	for _, n := range w.leaders {
+	for i, n := range w.leaders {
+		// staggered starts: the periodic loops of different nodes never tick at the same fake instant
+		time.Sleep(time.Duration(1000+37*i) * time.Microsecond)
 		if err := n.start(); err != nil {
 			out.Fail("HARNESS", "start", "start", 0, "leader %s: %v", n.name, err)
 			return out
@@ -53,10 +58,11 @@ func Exec(s core.Schedule) *core.Outcome {
 	settle()
 	time.Sleep(150 * time.Millisecond)
 	startFollowers := func() bool {
-		for _, n := range w.follow {
+		for i, n := range w.follow {
 			if n.up {
 				continue
 			}
+			time.Sleep(time.Duration(700+53*i) * time.Microsecond)
 			if err := n.start(); err != nil {
 				out.Fail("HARNESS", "start", "start", 0, "follower %s: %v", n.name, err)
 				return false
@@ -102,7 +108,12 @@ func Exec(s core.Schedule) *core.Outcome {
 			return out
 		}
 	}
-	if !r.failed() {
+	if cfg.Prop == "C10" {
+		r.waitPending()
+		r.checkFatals()
+		r.checkHistory()
+	} else if !r.failed() {
+		r.waitPending()
 		r.finalLiveness()
 	}
 	r.finish()
@@ -270,6 +281,8 @@ func (r *run) finish() {
 	switch r.cfg.Prop {
 	case "C05":
 		out.NonTrivial = out.Probes["follower-advanced"] >= 2 && len(out.Faults) > 0
+	case "C10":
+		out.NonTrivial = out.Probes["raft-linearizable-read-on-lagging-replica"] > 0 || out.Probes["overlapping-calls"] > 0
 	default:
 		out.NonTrivial = true
 	}
